@@ -604,7 +604,13 @@ r_expand(const Expansion &expansion, const vector_string &args,
          bool expand_undefined, const Ignores &ignores) const {
   std::string result;
 
+  // True if the left operand of the next ## was an empty argument; pasting to
+  // it yields the right operand as a token of its own.
+  bool placemarker = false;
+
   for (const ExpansionNode &node : expansion) {
+    const bool paste = node._paste && !placemarker;
+    const size_t prev_size = result.size();
     if (node._parm_number >= 0) {
       int i = node._parm_number;
 
@@ -637,7 +643,7 @@ r_expand(const Expansion &expansion, const vector_string &args,
       }
 
       if (!subst.empty()) {
-        if (result.empty() || node._paste || result.back() == '(') {
+        if (result.empty() || paste || result.back() == '(') {
           result += subst;
         } else {
           result += ' ';
@@ -646,7 +652,7 @@ r_expand(const Expansion &expansion, const vector_string &args,
       }
     }
     if (!node._str.empty()) {
-      if (result.empty() || node._paste || node._str[0] == ',' || node._str[0] == ')') {
+      if (result.empty() || paste || node._str[0] == ',' || node._str[0] == ')') {
         result += node._str;
       } else {
         result += ' ';
@@ -669,13 +675,14 @@ r_expand(const Expansion &expansion, const vector_string &args,
       if (node._stringify) {
         nested_result = stringify(nested_result);
       }
-      if (result.empty() || node._paste) {
+      if (result.empty() || paste) {
         result += nested_result;
       } else {
         result += ' ';
         result += nested_result;
       }
     }
+    placemarker = (result.size() == prev_size) && (!node._paste || placemarker);
   }
 
   return result;
